@@ -22,6 +22,8 @@ type SimStore struct {
 	OnDequeue func(req queue.DequeueRequest, resp queue.DequeueResponse, err error)
 	OnLease   func(method string, ids []string, d time.Duration, reason string, res *queue.LeaseBatchResult, err error)
 	OnAttempt func(a queue.DeliveryAttempt, err error)
+	// OnFault: Before refused the call (injected store fault); the store never saw it.
+	OnFault func(method string, ids []string, a *queue.DeliveryAttempt)
 }
 
 func (s *SimStore) pre(m string) error {
@@ -76,6 +78,9 @@ func (s *SimStore) Dequeue(req queue.DequeueRequest) (queue.DequeueResponse, err
 
 func (s *SimStore) Ack(id string) error {
 	if err := s.pre("Ack"); err != nil {
+		if s.OnFault != nil {
+			s.OnFault("Ack", []string{id}, nil)
+		}
 		return err
 	}
 	err := s.Inner.Ack(id)
@@ -88,6 +93,9 @@ func (s *SimStore) Ack(id string) error {
 
 func (s *SimStore) Nack(id string, d time.Duration) error {
 	if err := s.pre("Nack"); err != nil {
+		if s.OnFault != nil {
+			s.OnFault("Nack", []string{id}, nil)
+		}
 		return err
 	}
 	err := s.Inner.Nack(id, d)
@@ -100,6 +108,9 @@ func (s *SimStore) Nack(id string, d time.Duration) error {
 
 func (s *SimStore) Extend(id string, d time.Duration) error {
 	if err := s.pre("Extend"); err != nil {
+		if s.OnFault != nil {
+			s.OnFault("Extend", []string{id}, nil)
+		}
 		return err
 	}
 	err := s.Inner.Extend(id, d)
@@ -112,6 +123,9 @@ func (s *SimStore) Extend(id string, d time.Duration) error {
 
 func (s *SimStore) MarkDead(id string, reason string) error {
 	if err := s.pre("MarkDead"); err != nil {
+		if s.OnFault != nil {
+			s.OnFault("MarkDead", []string{id}, nil)
+		}
 		return err
 	}
 	err := s.Inner.MarkDead(id, reason)
@@ -124,6 +138,9 @@ func (s *SimStore) MarkDead(id string, reason string) error {
 
 func (s *SimStore) AckBatch(ids []string) (queue.LeaseBatchResult, error) {
 	if err := s.pre("AckBatch"); err != nil {
+		if s.OnFault != nil {
+			s.OnFault("AckBatch", ids, nil)
+		}
 		return queue.LeaseBatchResult{}, err
 	}
 	r, err := s.Inner.(queue.LeaseBatchStore).AckBatch(ids)
@@ -136,6 +153,9 @@ func (s *SimStore) AckBatch(ids []string) (queue.LeaseBatchResult, error) {
 
 func (s *SimStore) NackBatch(ids []string, d time.Duration) (queue.LeaseBatchResult, error) {
 	if err := s.pre("NackBatch"); err != nil {
+		if s.OnFault != nil {
+			s.OnFault("NackBatch", ids, nil)
+		}
 		return queue.LeaseBatchResult{}, err
 	}
 	r, err := s.Inner.(queue.LeaseBatchStore).NackBatch(ids, d)
@@ -148,6 +168,9 @@ func (s *SimStore) NackBatch(ids []string, d time.Duration) (queue.LeaseBatchRes
 
 func (s *SimStore) MarkDeadBatch(ids []string, reason string) (queue.LeaseBatchResult, error) {
 	if err := s.pre("MarkDeadBatch"); err != nil {
+		if s.OnFault != nil {
+			s.OnFault("MarkDeadBatch", ids, nil)
+		}
 		return queue.LeaseBatchResult{}, err
 	}
 	r, err := s.Inner.(queue.LeaseBatchStore).MarkDeadBatch(ids, reason)
@@ -268,6 +291,9 @@ func (s *SimStore) Stats() (queue.Stats, error) {
 
 func (s *SimStore) RecordAttempt(a queue.DeliveryAttempt) error {
 	if err := s.pre("RecordAttempt"); err != nil {
+		if s.OnFault != nil {
+			s.OnFault("RecordAttempt", nil, &a)
+		}
 		return err
 	}
 	err := s.Inner.RecordAttempt(a)
